@@ -126,6 +126,7 @@ def wrap_int(p, cell):
 def pair_cases(rng, radii, nm, pairs, minw, per_pair):
     """for each element pair: both sides of the cutoff, directly and through face / edge / corner images, and without a cell"""
     cases = []
+    corner_ctr = [0]
     dirs = [((1, 0, 0), 1), ((0, 1, 0), 1), ((0, 0, 1), 1), ((3, 4, 0), 5), ((0, 3, 4), 5), ((2, 3, 6), 7), ((1, 4, 8), 9), ((-3, 0, 4), 5), ((2, -6, 3), 7)]
     for (e1, e2) in pairs:
         c = cutoff100(radii, nm, e1, e2)
@@ -136,7 +137,9 @@ def pair_cases(rng, radii, nm, pairs, minw, per_pair):
             above = (math.floor(real) // ul + 1) * ul
             for m, side in ((below, "below"), (above, "above")):
                 d = [x * (m // ul) for x in u]
-                for mode in [rng.choice(["cell-image", "cell-image", "cell-inside", "nocell"])] + (["across-face"] if side == "below" and rep == 0 else []):
+                corner_ctr[0] += 1
+                for mode in [rng.choice(["cell-image", "cell-image", "cell-inside", "nocell"])] + (["across-face"] if side == "below" and rep == 0 else []) + \
+                        (["corner"] if side == "below" and rep == 0 and corner_ctr[0] % 3 == 0 else []):
                     if mode == "nocell":
                         a = [rng.randrange(-20 * G, 20 * G) for _ in range(3)]
                         b = [a[i] + d[i] for i in range(3)]
@@ -152,7 +155,23 @@ def pair_cases(rng, radii, nm, pairs, minw, per_pair):
                     for _ in range(30):
                         if mode == "cell-image":
                             fr = np.array([rng.choice([0.002, 0.998, rng.random()]) for _ in range(3)])
-                        elif mode == "across-face":
+                        elif mode == "corner":
+                            # the first atom just inside one of the eight corners, its partner beyond all three faces that meet there
+                            # (bonded only through the diagonal image); corners are visited in turn
+                            inv = np.linalg.inv(cm)
+                            cn = [(corner_ctr[0] // 3 >> b) & 1 for b in range(3)]
+                            uu, ull = rng.choice([((2, 3, 6), 7), ((1, 4, 8), 9), ((6, 2, 3), 7), ((4, 8, 1), 9), ((3, 6, 2), 7)])
+                            dd = np.array([x * (m // ull) for x in uu], float)
+                            best = None
+                            for sg in itertools.product((1, -1), repeat=3):
+                                dfr = (dd * np.array(sg)) @ inv
+                                if all((dfr[t] > 0.004) == (cn[t] == 1) and abs(dfr[t]) > 0.004 for t in range(3)):
+                                    best = [int(v) for v in dd * np.array(sg)]
+                                    break
+                            if best is None:
+                                break
+                            d = best
+                            fr = np.array([0.998 if cn[t] else 0.002 for t in range(3)])
                             # the first atom almost a full bond length inside the cell, its partner just beyond the face
                             inv = np.linalg.inv(cm)
                             df = np.array(d, float) @ inv
